@@ -155,4 +155,15 @@ example : (Node.num (.real 0)).eqv (.num (.real 0x8000000000000000)) = false := 
 /-- array order matters -/
 example : (Node.arr none [.null, .bool true]).eqv (.arr none [.bool true, .null]) = false := by decide
 
+/-- `C18_reparse` for the literal `F64toa` model, with no hypothesis about the double printer left (C06 `C06_ftoaModel_facts`):
+    serialise any duplicate-free finite well-formed value, parse the text with the reference reader, and every node representing the
+    result equals every node representing the original. -/
+theorem C18_reparse_model (v : JVal)
+    (hwf : Render.WF v = true) (hfin : Render.AllFinite v = true) (hd : Equal.noDupKeys v = true)
+    (bytes : List Nat) (hr : Render.render (Sonic.Model.Serialize.ftoaText Sonic.Model.Serialize.ftoaModel) v = some bytes)
+    (v' : JVal) (hp : Json.parse bytes = .ok v')
+    (a a' : Node) (ha : Good a) (ha' : Good a') (habs : a.abs = v) (habs' : a'.abs = v') :
+    a'.eqv a = true ∧ a.eqv a' = true :=
+  C18_reparse Sonic.Model.Serialize.ftoaModel Sonic.Props.C06.C06_ftoaModel_facts v hwf hfin hd bytes hr v' hp a a' ha ha' habs habs'
+
 end Sonic.Props.C18
